@@ -5,11 +5,11 @@ import std
 # Wire layer of JSON structure (json.go + json.base.go): underlies C01/C11/C14/C02 for json.
 SPEC = {
     'prop_files': ['theories/Properties/W_json.v'],
-    'coq_targets': ['theories/Properties/W_json.vo', 'theories/Wire/JsonCorr.vo'],
-    'closure_dirs': ['theories/Wire/Json.v', 'theories/Wire/JsonProofs.v', 'theories/Wire/JsonRT.v', 'theories/Wire/JsonDepth.v', 'theories/Wire/JsonTotal.v', 'theories/Wire/JsonSkip.v', 'theories/Wire/JsonLeaf.v', 'theories/Wire/JsonCorr.v',
+    'coq_targets': ['theories/Properties/W_json.vo', 'theories/Wire/JsonCorr.vo', 'theories/Properties/C09_doc.vo'],
+    'closure_dirs': ['theories/Wire/Json.v', 'theories/Wire/JsonProofs.v', 'theories/Wire/JsonRT.v', 'theories/Wire/JsonDepth.v', 'theories/Wire/JsonTotal.v', 'theories/Wire/JsonSkip.v', 'theories/Wire/JsonLeaf.v', 'theories/Wire/JsonDoc.v', 'theories/Wire/JsonDocProofs.v', 'theories/Wire/JsonCorr.v',
                      'theories/Wire/Item.v', 'theories/Base/Outcome.v', 'theories/Gen/Consts.v',
                      'theories/C09/Spec.v', 'theories/C09/Model.v', 'theories/C09/ProofsStr.v', 'theories/C09/ProofsNum.v',
-                     'theories/C09/ProofsQuote.v', 'theories/C09/ProofsUint.v'],
+                     'theories/C09/ProofsQuote.v', 'theories/C09/ProofsUint.v', 'theories/C09/ProofsParse.v'],
     'harness': 'wirejson',
     'args': {
         'quick': ['-enc', 300, '-valid', 150, '-mut', 300, '-rand', 200],
